@@ -86,7 +86,7 @@ AlphaOps2 == AlphaOf([Query |-> {"f", "s"}])
 ArgOptsOps2 == [ f |-> {<<ArgV("a", Lit("var", "n"))>>}, g |-> {<<ArgV("r", Lit("int", 2))>>} ]
 AlphaSchedP == AlphaOf([Query |-> {"lp"}, P |-> {"o"}, A |-> {"o"}, T |-> {"s", "d"}])
 AlphaCs == AlphaOf([Query |-> {"cs", "csn", "lcs", "o", "on"}, T |-> {"csn", "s"}])
-AlphaCsM == AlphaOf([Mutation |-> {"mcs", "m3", "m1"}, T |-> {"csn", "s"}])
+AlphaCsM == AlphaOf([Mutation |-> {"mcs", "mln", "m3"}, T |-> {"csn", "s"}])
 OKindsRaise == {[o |-> "raise"]}
 VarValsSmall == [ v |-> {Bool(TRUE), Bool(FALSE)}, w |-> {Bool(FALSE)}, n |-> {Int(3)}, m |-> {Int(4)}, x |-> {Str("xs")}, y |-> {Int(5)} ]
 AlphaSub == AlphaOf([Subscription |-> {"ev", "evs"}, T |-> {"s", "sn"}])
